@@ -73,7 +73,7 @@ func startNode(dir string, atGenesis bool) *world {
 	wcfg.CryptoType = "sha256-xor" // the default (scrypt) needs seconds per encryption; the cipher is not what C28 is about
 	ws, err := wallet.NewService(wcfg)
 	must(err)
-	w1, err := ws.CreateWallet("w1.wlt", wallet.Options{Type: wallet.WalletTypeDeterministic, Seed: seed, Label: "one", GenerateN: 3})
+	w1, err := ws.CreateWallet("w1.wlt", wallet.Options{Type: wallet.WalletTypeDeterministic, Seed: seed, Label: "one", GenerateN: 3, CryptoType: "sha256-xor"})
 	must(err)
 	_, err = ws.CreateWallet("w2.wlt", wallet.Options{Type: wallet.WalletTypeDeterministic, Seed: seed + " two", Label: "two", GenerateN: 2, Encrypt: true, Password: []byte("pw"), CryptoType: "sha256-xor"})
 	must(err)
@@ -82,7 +82,7 @@ func startNode(dir string, atGenesis bool) *world {
 	owner := es[0]
 	// the other wallet types, each with an address that will hold coins: bip44, xpub (no secret keys at all), collection
 	w3, err := ws.CreateWallet("w3.wlt", wallet.Options{Type: wallet.WalletTypeBip44, Seed: "abandon abandon abandon abandon abandon abandon abandon abandon abandon abandon abandon about",
-		SeedPassphrase: fmt.Sprint(rng.Int63()), Label: "three", GenerateN: 2})
+		SeedPassphrase: fmt.Sprint(rng.Int63()), Label: "three", GenerateN: 2, CryptoType: "sha256-xor"})
 	must(err)
 	mk, err := bip32.NewMasterKey([]byte(fmt.Sprintf("xpub master key seed %020d", rng.Int63())))
 	must(err)
@@ -92,7 +92,7 @@ func startNode(dir string, atGenesis bool) *world {
 	w5, err := ws.CreateWallet("w5.wlt", wallet.Options{Type: wallet.WalletTypeCollection, Label: "five", CollectionPrivateKeys: []cipher.SecKey{csec}})
 	must(err)
 	// the wallet the huge-count probes are aimed at: never touched by the random requests, so always unencrypted
-	_, err = ws.CreateWallet("wp.wlt", wallet.Options{Type: wallet.WalletTypeDeterministic, Seed: seed + " probe", Label: "probe", GenerateN: 1})
+	_, err = ws.CreateWallet("wp.wlt", wallet.Options{Type: wallet.WalletTypeDeterministic, Seed: seed + " probe", Label: "probe", GenerateN: 1, CryptoType: "sha256-xor"})
 	must(err)
 	var funded []cipher.Address
 	for _, w := range []wallet.Wallet{w3, w4, w5} {
@@ -215,7 +215,7 @@ func startNode(dir string, atGenesis bool) *world {
 	for _, s := range []string{api.EndpointsRead, api.EndpointsStatus, api.EndpointsTransaction, api.EndpointsWallet, api.EndpointsInsecureWalletSeed, api.EndpointsNetCtrl, api.EndpointsStorage} {
 		enabled[s] = struct{}{}
 	}
-	srv, err := api.Create("127.0.0.1:0", api.Config{DisableCSRF: true, DisableCSP: true, EnabledAPISets: enabled, ReadTimeout: 10 * time.Second, WriteTimeout: 20 * time.Second}, gw)
+	srv, err := api.Create("127.0.0.1:0", api.Config{DisableCSRF: true, DisableCSP: true, EnabledAPISets: enabled, ReadTimeout: 30 * time.Second, WriteTimeout: 120 * time.Second}, gw)
 	must(err)
 	go func() { _ = srv.Serve() }()
 	wd.base = srv.Addr()
@@ -334,7 +334,7 @@ func main() {
 	// only one node per process (daemon.New registers message types process-wide), chosen by the seed's parity
 	atGenesis := seed%3 == 0
 	wd := startNode(dir, atGenesis)
-	client := &http.Client{Timeout: 15 * time.Second, Transport: &http.Transport{DisableKeepAlives: true}}
+	client := &http.Client{Timeout: 100 * time.Second, Transport: &http.Transport{DisableKeepAlives: true}}
 	// wallet life-cycles: requests that depend on what earlier ones did (create from a seed of a small pool, then unload /
 	// encrypt / decrypt / derive / recover / create again from the same seed ...), woven into the random requests
 	seeds := []string{wd.seed + " s1", wd.seed + " s2", wd.seed + " s3"}
